@@ -2,7 +2,7 @@
    WHOLE generated table and lifted with forallb_forall; statements about
    magnitudes hold for every pair of binary64 values. *)
 From Coq Require Import String List ZArith QArith Qabs Bool Lia.
-From RV Require Import Base.FExpr Base.F64 Gen.Units Model.Units Model.Numeric Spec.CssUnits Run.C11.
+From RV Require Import Base.FExpr Base.F64 Base.ListX Gen.Units Model.Units Model.Numeric Spec.CssUnits Run.C11.
 Import ListNotations.
 Local Open Scope string_scope.
 
@@ -40,13 +40,6 @@ Definition known_pair (u v : unit) : bool :=
 
 Definition real_units : list unit := filter (fun u => negb (is_unit_none u)) all_known_units.
 
-Lemma sweep2 {A} (l : list A) (P : A -> A -> bool) :
-  forallb (fun u => forallb (P u) l) l = true -> forall u v, In u l -> In v l -> P u v = true.
-Proof.
-  intros H u v Hu Hv. rewrite forallb_forall in H. specialize (H u Hu).
-  rewrite forallb_forall in H. exact (H v Hv).
-Qed.
-
 Definition groups_pred (u v : unit) : bool :=
   known_pair u v || Bool.eqb (convertible u v) (same_group (disp u) (disp v)).
 
@@ -57,7 +50,7 @@ Lemma groups : forall u v, In u real_units -> In v real_units -> known_pair u v 
   convertible u v = same_group (disp u) (disp v).
 Proof.
   intros u v Hu Hv Hk.
-  pose proof (sweep2 real_units groups_pred groups_sweep u v Hu Hv) as H.
+  pose proof (sweep2 real_units real_units groups_pred groups_sweep u v Hu Hv) as H.
   unfold groups_pred in H. rewrite Hk, orb_false_l in H. apply eqb_prop in H. exact H.
 Qed.
 
@@ -91,7 +84,7 @@ Lemma ratios_sweep : forallb (fun u => forallb (ratio_ok u) real_units) real_uni
 Proof. vm_compute. reflexivity. Qed.
 
 Lemma ratios : forall u v, In u real_units -> In v real_units -> ratio_ok u v = true.
-Proof. exact (sweep2 real_units ratio_ok ratios_sweep). Qed.
+Proof. exact (sweep2 real_units real_units ratio_ok ratios_sweep). Qed.
 
 (* ---------- structure of + and -, for all magnitudes ---------- *)
 Lemma us_is_none_nil : us_is_none [] = true.
